@@ -19,7 +19,8 @@
 (*          31 bits, -1 if absent), top (its top bit), len / type / sid (-1   *)
 (*          where the header type does not carry them), pay (payload bytes),  *)
 (*          mi / off (k-th message started on the wire, offset inside it),    *)
-(*          pm (payload bytes equal that slice of the k-th message written),  *)
+(*          pm (payload bytes equal that slice of the k-th message written;   *)
+(*          pmn = number of leading payload bytes that do),                   *)
 (*          rep (run length: rep identical full continuation chunks in a row) *)
 (*   junk   bytes the tokenizer could not frame as a chunk                    *)
 (*   end    end of the session's bytes                                        *)
@@ -28,17 +29,25 @@
 (* the high-water mark of consumed lines reaching the end of the file.        *)
 EXTENDS RtmpChunk, TLC, Json
 
-TraceLog   == ndJsonDeserialize("trace.ndjson")
+\* Everything derived from the file is computed once, in one LET, and kept as an explicit value (TLCEval): TLC keeps
+\* set constructors lazy and re-evaluates a definition like ndJsonDeserialize(..) at every use, i.e. once per line.
+Trace == TLCEval(LET log    == ndJsonDeserialize("trace.ndjson")
+                     n      == Len(log)
+                     resets == {i \in 1..n : log[i].ev = "reset"}
+                     chunks == {i \in 1..n : log[i].ev = "chunk"}
+                 IN [log  |-> log,
+                     msgs |-> UNION {{log[i].msgs[k] : k \in 1..Len(log[i].msgs)} : i \in resets},
+                     ids  |-> UNION {{<<i, log[i].msgs[k].id>> : k \in 1..Len(log[i].msgs)} : i \in resets},
+                     cids |-> {log[i].cid : i \in chunks}])
+TraceLog   == Trace.log
 NLog       == Len(TraceLog)
-ResetLines == {i \in 1..NLog : TraceLog[i].ev = "reset"}
-ChunkLines == {i \in 1..NLog : TraceLog[i].ev = "chunk"}
 \* CONSTANTS of RtmpChunk taken from the trace (cfg: Msgs <- TraceMsgs, DataCids <- TraceCids)
-TraceMsgs  == UNION {{TraceLog[i].msgs[k] : k \in 1..Len(TraceLog[i].msgs)} : i \in ResetLines}
-TraceCids  == {TraceLog[i].cid : i \in ChunkLines}
+TraceMsgs  == Trace.msgs
+TraceCids  == Trace.cids
 
 ASSUME NLog >= 2 /\ TraceLog[1].ev = "reset" /\ TraceLog[NLog].ev = "end"
 \* message ids are unique in the file (MsgById)
-ASSUME \A a, b \in TraceMsgs : a.id = b.id => a = b
+ASSUME Cardinality({p[2] : p \in Trace.ids}) = Cardinality(Trace.ids)
 
 VARIABLES
   st,     \* state of the reference receiver (RtmpChunk!Decode's accumulator)
@@ -154,7 +163,8 @@ Why(S, r) ==
         c   == S.cst[r.cid]
     IN
     IF S.prog[r.cid] = NoMsg
-    THEN IF S.n >= Len(app) THEN "chunk-beyond-messages"
+    THEN IF \E c2 \in AllCids : S.prog[c2] # NoMsg THEN "continuation-header-expected"   \* (diagnosis assumes a writer that does not interleave)
+         ELSE IF S.n >= Len(app) THEN "chunk-beyond-messages"
          ELSE
            LET m      == app[S.n + 1]
                same   == c.has /\ c.sid = m.sid /\ m.ts >= c.ts
@@ -179,18 +189,18 @@ Why(S, r) ==
               ELSE IF r.fmt <= 1 /\ r.type # m.type THEN "message-type-field"
               ELSE IF r.fmt = 0 /\ r.sid # m.sid THEN "stream-id-field"
               ELSE IF r.pay # Min2(S.scs, MsgLen(m)) THEN "chunk-size-not-in-force"
-              ELSE IF ~r.pm THEN "payload-bytes"
+              ELSE IF ~r.pm THEN (IF r.pmn > 0 THEN "chunk-shorter-than-size-in-force" ELSE "payload-bytes")
               ELSE IF r.mi # S.n + 1 \/ r.off # 0 \/ r.rep # 1 THEN "framing-disagrees"
               ELSE "receiver-rejects"
     ELSE
       LET m    == S.prog[r.cid].m
           done == S.prog[r.cid].done
-      IN IF r.fmt # 3 THEN "continuation-header-type"
+      IN IF r.fmt # 3 THEN "continuation-header-expected"
          ELSE IF r.form \notin FormsOf(r.cid) THEN "basic-header-form"
          ELSE IF (r.ext >= 0) # c.ext THEN "c3-ext-timestamp-presence"
          ELSE IF c.ext /\ (r.ext # c.extval \/ r.top) THEN "c3-ext-timestamp"
          ELSE IF r.pay # (IF r.rep = 1 THEN Min2(S.scs, MsgLen(m) - done) ELSE S.scs) THEN "chunk-size-not-in-force"
-         ELSE IF ~r.pm THEN "payload-bytes"
+         ELSE IF ~r.pm THEN (IF r.pmn > 0 THEN "chunk-shorter-than-size-in-force" ELSE "payload-bytes")
          ELSE IF r.off # done THEN "framing-disagrees"
          ELSE "receiver-rejects"
 
